@@ -1,6 +1,7 @@
 import Driver.Util
 import Stgutg.Model.FailStop
 import Stgutg.Gen.Script
+import Stgutg.Spec.FailStop
 namespace Driver
 open Stgutg Stgutg.Model.FailStop
 
@@ -49,7 +50,10 @@ def canonical (o : St) (kind : String) (faultAt : Option Nat) : String :=
     | m :: _ => underscores m
     | [] => "-"
   let tests := (o.printed.filter (fun | .line t => t.startsWith ">> [" | _ => false)).length
+  -- closeul: whether the program's next write beats the peer's close decides which ManageError text and how many
+  -- test headers are printed; not compared
   let testsS := if kind = "closeul" then "*" else toString tests
+  let err := if kind = "closeul" then "*" else err
   let after := match faultAt with
     | some k => (o.ul.filter (fun (u : String × String × Nat) => u.2.2 > k)).length
     | none => 0
@@ -64,25 +68,28 @@ def fsrun : Handler
       let ops := flat Gen.Script.script c
       let ks := kinds ops
       let total := ks.length
-      let nw := writes ops
       let kN := k.toNat
       let oks (n : Nat) := List.replicate n Reply.ok
       let one (x : Reply) : List Reply := if kN < total then oks kN ++ [x] ++ oks (total - kN - 1) else oks total
       let inConv := decide (0 ≤ k) && decide (kN < total)
+      let sc : Spec.FailStop.Counts := ⟨r, p, s, rel, d⟩
+      let dem (b : Bool) : String := if decide (0 ≤ k) && b then "demand" else "undef"
       match kind with
       | "none" => (canonical (run Gen.Script.script c (oks total)) kind none, "n/a")
       | "close" =>
-        (canonical (run Gen.Script.script c (oks kN ++ [.closed])) kind none, if inConv then "demand" else "undef")
+        (canonical (run Gen.Script.script c (oks kN ++ [.closed])) kind none, dem (Spec.FailStop.closeInScope sc kN))
       | "garbage" | "trunc" =>
-        let strict := ks[kN]?.getD false
         (canonical (run Gen.Script.script c (one .garbage)) kind (if inConv then some kN else none),
-         if inConv && strict then "demand" else "undef")
+         dem (Spec.FailStop.garbageInScope sc kN))
       | "other" =>
         (canonical (run Gen.Script.script c (one .other)) kind (if inConv then some kN else none), "undef")
+      | "silent" =>
+        -- outside the fault model: the peer stops answering and does not close; the program waits for ever
+        (canonical (run Gen.Script.script c (if kN < total then oks kN else oks total)) kind none, "undef")
       | "closeul" =>
         -- the peer closes right after uplink message k: it accepts k+1 messages
         (canonical (run Gen.Script.script c (oks total) (some (kN + 1))) kind none,
-         if decide (0 ≤ k) && decide (kN + 1 < nw) then "demand" else "undef")
+         dem (Spec.FailStop.closeAfterUplinkInScope sc kN))
       | _ => badOp
     | _, _, _, _, _, _ => badOp
   | _ => badOp
